@@ -39,6 +39,12 @@ fn c18_instruction_results_obey_the_limit() {
         ("calldatacopy with grown offset, constant size", vec![0x60, 0x20, 0x36, 0x80, 0x01, 0x80, 0x01, 0x60, 0x00, 0x37, 0x60, 0x00, 0x51, 0x60, 0x00, 0x55, 0x00]),
         ("codecopy / returndatacopy with grown operands", vec![0x36, 0x80, 0x01, 0x80, 0x01, 0x80, 0x80, 0x60, 0x00, 0x39, 0x36, 0x80, 0x01, 0x80, 0x80, 0x60, 0x20, 0x3e, 0x60, 0x00, 0x51, 0x60, 0x00, 0x55, 0x00]),
         ("folded memory key with a constant sub-expression", vec![0x60, 0x07, 0x60, 0x01, 0x60, 0x02, 0x01, 0x36, 0x01, 0x52, 0x00]),
+        // path-ending instructions record a value too: RETURN / REVERT of memory that holds grown words, LOG data, SELFDESTRUCT beneficiary
+        ("return of two grown words", vec![0x36, 0x80, 0x01, 0x80, 0x01, 0x80, 0x01, 0x80, 0x60, 0x00, 0x52, 0x60, 0x20, 0x52, 0x60, 0x40, 0x60, 0x00, 0xf3]),
+        ("revert of two grown words", vec![0x36, 0x80, 0x01, 0x80, 0x01, 0x80, 0x01, 0x80, 0x60, 0x00, 0x52, 0x60, 0x20, 0x52, 0x60, 0x40, 0x60, 0x00, 0xfd]),
+        ("log1 of grown data and topic", vec![0x36, 0x80, 0x02, 0x80, 0x02, 0x80, 0x02, 0x80, 0x60, 0x00, 0x52, 0x60, 0x20, 0x60, 0x00, 0xa1, 0x00]),
+        ("selfdestruct to a grown beneficiary", vec![0x36, 0x80, 0x01, 0x80, 0x01, 0x80, 0x01, 0xff]),
+        ("sha3 of two grown words stored", vec![0x36, 0x80, 0x01, 0x80, 0x01, 0x80, 0x60, 0x00, 0x52, 0x60, 0x20, 0x52, 0x60, 0x40, 0x60, 0x00, 0x20, 0x60, 0x00, 0x55, 0x00]),
         // a word copied back and forth between two slots, and round three slots: the wrappers must not pile up
         ("ping-pong between slots 1 and 2", { let mut v = vec![0x36, 0x60, 0x01, 0x55]; for _ in 0..60 { v.extend([0x60, 0x01, 0x54, 0x60, 0x02, 0x55, 0x60, 0x02, 0x54, 0x60, 0x01, 0x55]); } v.push(0x00); v }),
         ("round trip over slots 1, 2, 3 with an increment", { let mut v = vec![0x36, 0x60, 0x01, 0x55]; for _ in 0..40 { for (a, b) in [(1u8, 2u8), (2, 3), (3, 1)] { v.extend([0x60, a, 0x54, 0x60, 0x01, 0x01, 0x60, b, 0x55]); } } v.push(0x00); v }),
